@@ -8,7 +8,7 @@ ID = "C10"
 RULE = ("Mode G over an adversarial id/bounds grammar, enumerated completely: top node with 1..2 (3 in a sub-family) children, each a leaf "
         "(id in {x,y,a,b,ab,A(=top),B,C}, bounds from a menu with equal-sum pairs (0,3)/(1,2), the hash(-1)==hash(-2) pair (-1,5)/(-2,5) and "
         "plain differences) or a compound (id B/C/generated, sign/value in {(+,1),(+,2),(-,-1),(-,-2),(-,1),(+,-1)}, 1..2 children incl. a leaf with a box symmetric around 0, optionally nested), "
-        "plus a family of definitions of one id whose child-id lists look alike in joined text (ids containing ',' / ', ' / quotes / blanks), plus a family of generated-id coincidences under DIFFERENT parents (+(ab,c) vs +(a,bc) ...), plus wrapper families that reuse the same object / an equal copy / a different definition of one id under two parents, self "
+        "plus a family where one id is a compound with a pre-fixed / plain own variable AND a leaf or another compound with other bounds, plus a family of definitions of one id whose child-id lists look alike in joined text (ids containing ',' / ', ' / quotes / blanks), plus a family of generated-id coincidences under DIFFERENT parents (+(ab,c) vs +(a,bc) ...), plus wrapper families that reuse the same object / an equal copy / a different definition of one id under two parents, self "
         "references and 2-/3-cycles through ids. oracle: soundness errors()==[] => reference validator (own traversal, compares ids and "
         "(lo,hi) tuples and (sign,value,children) directly, never hashes); completeness on models whose ids are pairwise distinct or whose "
         "equal ids carry identical records. non-trivial = distinct model that the reference rejects")
@@ -34,8 +34,9 @@ def leaf_spec(i, bd):
     return ("leaf", i, bd)
 
 
-def comp_spec(i, s, v, children):
-    return ("comp", i, s, v, tuple(children))
+def comp_spec(i, s, v, children, vb=None):
+    """vb: bounds of the compound's OWN variable when it is given as a puan.variable (pre-fixed (1,1) / (0,0), or plain (0,1))."""
+    return ("comp", i, s, v, tuple(children)) if vb is None else ("comp", i, s, v, tuple(children), tuple(vb))
 
 
 def inner_menu():
@@ -97,6 +98,21 @@ def sep_menu():
     return [comp_spec("B", s_, v_, [leaf_spec(c, (0, 1)) for c in cs]) for (s_, v_) in ((1, 1), (-1, -1)) for cs in SEP_SETS]
 
 
+def fixb_menu():
+    """One id B as a compound whose own variable is given with bounds (pre-fixed to a constant or plain), to be met under another parent
+    by a LEAF called B with the same / other bounds or by another compound B with other variable bounds."""
+    out = []
+    for vb in ((1, 1), (0, 0), (0, 1)):
+        for cs in ((("x", (0, 1)),), (("a", (0, 1)), ("b", (0, 1)))):
+            for (s_, v_) in ((1, 1), (-1, -1)):
+                out.append(comp_spec("B", s_, v_, [leaf_spec(*c) for c in cs], vb))
+    return out
+
+
+def fixb_partners():
+    return [leaf_spec("B", bd) for bd in ((0, 1), (1, 1), (0, 0), (0, 3))] + fixb_menu()
+
+
 def build(spec, memo):
     """memo: dict spec->object when sharing identical specs as ONE object, or None for fresh copies."""
     if memo is not None and spec in memo:
@@ -104,8 +120,9 @@ def build(spec, memo):
     if spec[0] == "leaf":
         o = puan.variable(spec[1], spec[2])
     else:
-        _, i, s, v, ch = spec
-        o = pg.AtLeast(v, [build(c, memo) for c in ch], variable=i, sign=s)
+        i, s, v, ch = spec[1:5]
+        var = i if len(spec) == 5 else puan.variable(i, spec[5])
+        o = pg.AtLeast(v, [build(c, memo) for c in ch], variable=var, sign=s)
     if memo is not None:
         memo[spec] = o
     return o
@@ -162,6 +179,7 @@ def shards(tier):
     ng = len(gen_menu())
     out += [("wrapg", lo, min(ng, lo + 6)) for lo in range(0, ng, 6)]
     out += [("wraps", 0, len(sep_menu()))]
+    out += [("wrapf", 0, len(fixb_menu()))]
     out += [("triples", lo, min(len(triple_menu(tier)), lo + 2)) for lo in range(0, len(triple_menu(tier)), 2)]
     return out
 
@@ -204,6 +222,14 @@ def run_shard(desc, acc, tier):
                         D = comp_spec("D", 1, 1, [gm[j]] + ([leaf_spec(*extra)] if extra else []))
                         E = comp_spec("E", 1, 1, [gm[i], leaf_spec("y", (0, 1))])
                         check((E, D), (1, 2), share, acc, {"kind": kind, "i": [i, j], "extra": extra, "share": share})
+    elif kind == "wrapf":
+        fm, fp = fixb_menu(), fixb_partners()
+        for i in range(lo, hi):
+            for j in range(len(fp)):
+                for share in (True, False):
+                    for top in ((1, 2), (1, 1)):
+                        D = comp_spec("D", 1, 1, [fp[j], leaf_spec("c", (0, 1))])
+                        check((fm[i], D), top, share, acc, {"kind": kind, "i": [i, j], "share": share, "top": top})
     elif kind == "wraps":
         sm = sep_menu()
         for i in range(lo, hi):
@@ -274,6 +300,10 @@ def replay(case, acc):
         D = comp_spec("D", 1, 1, [gm[case["i"][1]]] + ([leaf_spec(*extra)] if extra else []))
         E = comp_spec("E", 1, 1, [gm[case["i"][0]], leaf_spec("y", (0, 1))])
         check((E, D), (1, 2), share, acc, case)
+    elif kind == "wrapf":
+        fm, fp = fixb_menu(), fixb_partners()
+        D = comp_spec("D", 1, 1, [fp[case["i"][1]], leaf_spec("c", (0, 1))])
+        check((fm[case["i"][0]], D), tuple(case["top"]), share, acc, case)
     elif kind == "wraps":
         sm = sep_menu()
         check((sm[case["i"][0]], comp_spec("D", 1, 1, [sm[case["i"][1]]])), (1, 2), share, acc, case)
